@@ -3,10 +3,10 @@ package main
 // rules_edom.go: evaluator dispatch rules decided by path enumeration (edom.go / absint.go).
 
 import (
-	"os"
 	"fmt"
 	"go/token"
 	"go/types"
+	"os"
 	"sort"
 	"strings"
 )
